@@ -131,7 +131,9 @@ CHECKS.update({
               "stable order, termination with an empty cursor, bad-cursor rejection and iterator = manual paging exhaustively for 5 ids, page sizes 1-3, <=2 (quick) / <=4 (thorough) "
               "mutations. Every edge of the reduced state graph is replayed on a real Server + Client for tools, prompts, resources and templates, with seeded random histories, "
               "iterator replays and thousands of issued, stale, forged and arbitrary cursor strings; every page, iterator output and cursor outcome is judged by the TLA+ monitor "
-              "PaginateMon and the strict trace spec PaginateTrace; thorough adds -race."),
+              "PaginateMon and the strict trace spec PaginateTrace; thorough adds -race. Iterator = manual paging is also checked when a visibility filter between server and client "
+              "(a receiving middleware hiding a set of ids: 4 sets quick, all 32 thorough) makes pages arrive shortened or empty while still carrying a cursor; exactly-once and "
+              "stable order are then judged relative to registered minus hidden."),
         design_ref="DESIGN.md section 6 C17",
         note="Trusted: TLC; projection of pages through the public API; the harness' reference codec for the cursor format (defines 'malformed'); 5 ids per server; 20 s real-time deadline for hang detection.",
         technique="TLA+ spec + TLC exhaustive; transition-cover replay and trace validation on the real server/client; seeded cursor fuzzing judged by the monitor",
@@ -189,7 +191,8 @@ CHECKS.update({
               "close under a running tool, stateless mode) is an explicit TLA+ state machine whose C11 invariants TLC checks exhaustively on bounded configurations. TLC generates the "
               "histories (transition cover of the 3041-state settled graph plus seeded simulations with requests at exactly the idle deadline) that are replayed on the real "
               "StreamableHTTPHandler + auth.RequireBearerToken in virtual time; a TLA+ monitor judges every response, handler start and Server.Sessions() snapshot; every settled trace "
-              "must also be a behaviour of the model."),
+              "must also be a behaviour of the model. The environment includes the configured EventStore entering and leaving fault modes (SessionClosed/Append failing; every method failing): "
+              "every termination path and every request on the terminated id is replayed in every store mode (edge cover of the one-session x store-mode graph; thorough also two sessions)."),
         design_ref="DESIGN.md section 6 C11, 5.6",
         note="Trusted: TLC; testing/synctest; the in-process ResponseWriter driver; the harness' id/user bookkeeping; bounds of 2-3 ids, timeout 3-4 ticks, 2-3 concurrent slow POSTs.",
         technique="TLA+ spec + TLC exhaustive; graph-cover and simulation generation; conformance replay; TLA+ monitor; strict trace validation",
